@@ -26,6 +26,7 @@ type liveCase struct {
 	Phi     time.Duration `json:"phi_ns"`
 	PhiName string        `json:"phi"`
 	Lat     time.Duration `json:"latency_per_leg_ns"`
+	LatName string        `json:"latency_per_leg,omitempty"`
 	// Window > 0: deviations are only explored during [From, From+Window) (used for the deeper bound)
 	From, Window time.Duration
 }
@@ -40,7 +41,7 @@ func (c liveCase) name() string {
 		s += c.Sender + "-sends/phi=" + c.PhiName
 	}
 	if c.Lat > 0 {
-		s += "/latency=T/8"
+		s += "/latency=" + c.LatName
 	}
 	if c.Window > 0 {
 		s += fmt.Sprintf("/window=%v+%v", c.From, c.Window)
@@ -138,9 +139,9 @@ func liveCases(c itCfg) []liveCase {
 		}
 	}
 	// with latency: idle, and a sender on either side at the ping instant
-	out = append(out, liveCase{C: c, Lat: c.T / 8})
-	out = append(out, liveCase{C: c, Lat: c.T / 8, Sender: "client", PhiName: "0"})
-	out = append(out, liveCase{C: c, Lat: c.T / 8, Sender: "server", PhiName: "0"})
+	out = append(out, liveCase{C: c, Lat: c.T / 8, LatName: "T/8"})
+	out = append(out, liveCase{C: c, Lat: c.T / 8, LatName: "T/8", Sender: "client", PhiName: "0"})
+	out = append(out, liveCase{C: c, Lat: c.T / 8, LatName: "T/8", Sender: "server", PhiName: "0"})
 	return out
 }
 
@@ -162,4 +163,15 @@ func liveScenarios(c itCfg, tier string) []*vx.Scenario {
 		out = append(out, liveScenario(lc, 2))
 	}
 	return out
+}
+
+// slowLinkCases: observation only. Larger latencies whose round trip (2 legs) still stays below
+// pingTimeout. The Go client sends the pong from inside its poll loop, so the next poll leaves one
+// round trip later and a ping may wait in the server's queue for it.
+func slowLinkCases(c itCfg) []liveCase {
+	return []liveCase{
+		{C: c, Lat: c.T / 4, LatName: "T/4"},
+		{C: c, Lat: 3 * c.T / 8, LatName: "3T/8"},
+		{C: c, Lat: c.T/2 - time.Millisecond, LatName: "T/2-1ms"},
+	}
 }
